@@ -480,6 +480,46 @@ func genSessions(r *hx.Rng) []hx.Group {
 	return evs
 }
 
+// many QoS 2 exchanges in flight at once on one connection (more than the initial capacity of the session's
+// queue, after a number of completed exchanges that leaves the queue's head anywhere), released in order, out
+// of order, with repeated PUBLISH and PUBREL packets; a subscriber at QoS 0 sees what is handed on
+func genDeepQos2(r *hx.Rng) []hx.Group {
+	var evs []hx.Group
+	evs = append(evs, evConnect(1, true, mq.Connect(mq.ConnectOpts{ClientID: "sub", Clean: true, KeepAlive: 60, Flags: -1})))
+	evs = append(evs, evBytes(1, mq.Subscribe(1, []string{"q/#"}, []int{0})))
+	evs = append(evs, evConnect(2, true, mq.Connect(mq.ConnectOpts{ClientID: "pub", Clean: r.Bool(), KeepAlive: 60, Flags: -1})))
+	pid := 1 + r.Intn(1000)
+	for k, n := 0, r.Intn(20); k < n; k++ { // completed exchanges first
+		pid++
+		evs = append(evs, evBytes(2, mq.Publish("q/a", r.Bytes(2), 2, false, false, pid)))
+		evs = append(evs, evBytes(2, mq.Ack(mq.PUBREL, pid)))
+	}
+	var open []int
+	for k, n := 0, 14+r.Intn(24); k < n; k++ {
+		pid++
+		open = append(open, pid)
+		b := mq.Publish("q/b", r.Bytes(1+r.Intn(3)), 2, false, false, pid)
+		if r.Chance(10) {
+			b = append(b, mq.Publish("q/b", []byte("again"), 2, false, true, pid)...)
+		}
+		evs = append(evs, evBytes(2, b))
+	}
+	inOrder := r.Chance(70)
+	for len(open) > 0 {
+		j := 0
+		if !inOrder && r.Chance(30) {
+			j = r.Intn(len(open))
+		}
+		b := mq.Ack(mq.PUBREL, open[j])
+		if r.Chance(8) {
+			b = append(b, mq.Ack(mq.PUBREL, open[j])...)
+		}
+		evs = append(evs, evBytes(2, b))
+		open = append(open[:j], open[j+1:]...)
+	}
+	return evs
+}
+
 func genHistory(r *hx.Rng, focus string) []hx.Group {
 	switch k := r.Intn(100); {
 	case k < 18:
@@ -490,6 +530,8 @@ func genHistory(r *hx.Rng, focus string) []hx.Group {
 		return genIntruder(r)
 	case k < 50:
 		return genSessions(r)
+	case k < 56:
+		return genDeepQos2(r)
 	}
 	g := &gen{r: r, inproc: map[int][]string{}}
 	n := 12 + r.Intn(40)
